@@ -32,6 +32,12 @@ func genCase(t *rapid.T) Case {
 	var c Case
 	c.GPUType = rapid.SampledFrom([]string{"r9nano", "r9nano", "mi300a"}).Draw(t, "gputype")
 	c.Prog = kgen.GenProgram(t, kgen.GenOpts{MaxItems: 1536, MaxOps: 24, LDS: true, Partial: true, SubDword: true})
+	if c.GPUType == "mi300a" && rapid.IntRange(0, 2).Draw(t, "gfx9") > 0 {
+		// the encodings and the emulator of the architecture the MI300A model is shipped for;
+		// half of them as version-5 code objects (work-item ids packed into v0)
+		c.Prog.GFX9 = true
+		c.Prog.PackedIDs = rapid.Bool().Draw(t, "packed-ids")
+	}
 	if rapid.Bool().Draw(t, "knobs") {
 		c.CUPerSA = rapid.SampledFrom([]int{0, 1, 2, 4}).Draw(t, "cupersa")
 		c.SAs = rapid.SampledFrom([]int{0, 1, 2, 4, 16}).Draw(t, "sas")
@@ -95,7 +101,13 @@ func RunCase(c Case) (res stats.Result) {
 	res.NonTrivial = f.Waves >= 2 && f.LazyWaits >= 1 && (f.Divergent > 0 || f.LDS > 0 || f.Loops > 0)
 
 	exp := p.Eval()
-	emu := runOn(plat.Spec{NumGPUs: 1}, p, comp)
+	if p.GFX9 {
+		res.Labels = append(res.Labels, "gfx9-encoding")
+	}
+	if p.PackedIDs {
+		res.Labels = append(res.Labels, "packed-work-item-ids")
+	}
+	emu := runOn(plat.Spec{NumGPUs: 1, CDNA3: p.GFX9}, p, comp)
 	tim := runOn(plat.Spec{Timing: true, GPUType: c.GPUType, NumGPUs: 1, CUPerSA: c.CUPerSA, SAs: c.SAs, L2KB: c.L2KB, Banks: c.Banks}, p, comp)
 	if c.CUPerSA != 0 || c.SAs != 0 || c.L2KB != 0 || c.Banks != 0 {
 		res.Labels = append(res.Labels, "non-default-timing-knobs")
